@@ -17,6 +17,12 @@ CLAIMED = {
     'C05': dict(
         text="The retry arithmetic and the queue kernels that implement 'retry exactly on failure within budget, delayed' are decided for all 64-bit values by symbolic execution of their MIR; queue shapes are enumerated, everything inside an entry (retry options, delay, start instant, clock reading) is symbolic. Counterexamples are confirmed by an in-crate differential replay of the real private functions.",
         note="Kernels: Retries::initial/next_try, RetryOptions::next_try/with_deadline/without_deadline, From<RetryOptionsWithDeadline>, left_until_retry (Instant::elapsed = arbitrary value), Features::insert_scenarios (<= 2 inserted + <= 2 queued entries, both hash-map iteration orders), Features::get (queues of <= 2 Serial x <= 2 Concurrent entries, thorough 3; limit None | 0..3). Duration/Instant abstracted to 64-bit nanoseconds; futures Mutex locks at once. NOT covered here: the sequencing inside the multi-poll coroutines run_scenario/execute (attempts do not overlap, fresh World per attempt, other scenarios keep running during the delay) - stated as outside the claim."),
+    'C15': dict(
+        text="The filtering kernel of Cucumber::filter_run (the stream-map closure with the composed filter it captures, obtained by running the real coroutine up to `features.map(..)`) and the real tag-expression evaluator are executed symbolically on a parsed feature; tag contents, regex and user-closure verdicts are symbolic. Counterexamples are confirmed through the real filter_run with a recording runner.",
+        note="Feature shape: <= 2 top-level scenarios + one rule with <= 2 scenarios; 0..1 tags per level (thorough 2); tag expressions from a menu of 6 tree shapes over two symbolic tag names (and / or / not nesting <= 2); modes: closure only, --name, --tags, --name with --tags. Regex::is_match and the user closure are opaque Booleans. Outside: parser.parse / runner.run plumbing, clap's conflict rule, larger trees."),
+    'C18': dict(
+        text="RetryOptions::parse_from_tags (with its apply_cli closures) and the option-merging prefix of <Basic as Runner>::run are decided on their MIR for every presence combination and all 64-bit values; counterexamples are confirmed by differential native replays (public parse_from_tags on a grid; the real runner observed under builder/CLI combinations).",
+        note="Abstraction: the tag TEXT grammar (strip_prefix/split_once/parse/humantime inside the parse_tags closure) returns an arbitrary Option<(Option<usize>, Option<Duration>)> per tag list - pinned only by the repo's own nine unit tests; TagOperation::eval is replaced by a recorder (arbitrary verdict, tags it is given are checked; its semantics are decided under C15). run(): insert_features/execute intercepted, their cli / concurrency / fail_fast arguments compared with cli.or(builder) / cli || builder."),
 }
 NA_REASON = {
     'C14': 'reporters: the facts leave through serde_json / junit-report / console styling / io::Write and the oracle is a parse-back of text; nothing of the property is left once those library calls are opaque (DESIGN.md section 3)',
